@@ -134,6 +134,29 @@ def operator_pairs(mb: ModelBuilder, op1: str, ops: Iterable[str]) -> list[tuple
     return out
 
 
+def stress_trees(mb: ModelBuilder) -> list[tuple[str, AObj]]:
+    """Constraint shapes that stress normal-form conversions: disjunctions of conjunctions with a
+    feature in both polarities (tautological clauses after distribution), xor written with and/or/not,
+    tautologies, repeated operands, deep negations."""
+    n, o = mb.node, mb.op
+    A, B, C = (lambda: n("A")), (lambda: n("B")), (lambda: n("C"))
+    NOT = lambda x: n(o("NOT"), x)  # noqa: E731
+    AND = lambda x, y: n(o("AND"), x, y)  # noqa: E731
+    OR = lambda x, y: n(o("OR"), x, y)  # noqa: E731
+    IMP = lambda x, y: n(o("IMPLIES"), x, y)  # noqa: E731
+    return [
+        ("ite", OR(AND(A(), B()), AND(NOT(A()), C()))),
+        ("xor_as_dnf", OR(AND(A(), NOT(B())), AND(NOT(A()), B()))),
+        ("tautology", OR(A(), NOT(A()))),
+        ("repeated", OR(A(), OR(B(), A()))),
+        ("cnf_of_dnf", AND(OR(A(), B()), OR(NOT(A()), OR(NOT(B()), C())))),
+        ("neg_of_implication", NOT(IMP(AND(A(), B()), C()))),
+        ("triple_negation", NOT(NOT(NOT(A())))),
+        ("imp_of_disjunctions", IMP(OR(A(), B()), OR(C(), NOT(B())))),
+        ("dnf3", OR(AND(A(), B()), OR(AND(B(), C()), AND(NOT(A()), NOT(C()))))),
+    ]
+
+
 POSITIONS = ("Root", "Mand", "Opt", "OrHost", "or1", "AltHost", "alt2", "Deep")
 
 
